@@ -19,6 +19,12 @@ open Conv
 module IM = Map.Make (Int)
 module IS = Set.Make (Int)
 
+(* the maximal run of adjacent function items at the head of an item list, and what follows it *)
+let rec split_run (items : item list) : fdef list * item list =
+  match items with
+  | IFunc fd :: t -> let run, rest = split_run t in (fd :: run, rest)
+  | _ -> ([], items)
+
 (* ---- free variables -------------------------------------------------------------------- *)
 let rec fv_expr (bound : IS.t) (acc : IS.t ref) (e : expr) : unit =
   let go = fv_expr bound acc in
@@ -37,9 +43,10 @@ and fv_items bound acc items =
   match items with
   | [] -> ()
   | ILet (x, e) :: t | IVar (x, e) :: t -> fv_expr bound acc e; fv_items (IS.add (int_of_n x) bound) acc t
-  | IFunc fd :: t ->
-    let b = IS.add (int_of_n (fd_name fd)) bound in
-    fv_fdef ~named:true b acc fd; fv_items b acc t
+  | IFunc _ :: _ ->
+    let run, rest = split_run items in
+    let b = List.fold_left (fun b fd -> IS.add (int_of_n (fd_name fd)) b) bound run in
+    List.iter (fun fd -> fv_fdef ~named:true b acc fd) run; fv_items b acc rest
   | IExpr e :: t -> fv_expr bound acc e; fv_items bound acc t
 and fv_fdef ~named bound acc (FDef (name, params, _, body, catches, call)) =
   let b = if named then IS.add (int_of_n name) bound else bound in
@@ -105,12 +112,12 @@ and rn_items r env = function
     let e' = rn_expr r env e in
     let k = r.bind (int_of_n x) in
     IVar (n_of_int k, e') :: rn_items r (IM.add (int_of_n x) k env) t
-  | IFunc fd :: t ->
-    let x = int_of_n (fd_name fd) in
-    let k = r.bind x in
-    let env' = IM.add x k env in
-    let fd' = rn_fdef r env' ~named:true fd in
-    IFunc fd' :: rn_items r env' t
+  | (IFunc _ :: _) as items ->
+    let run, rest = split_run items in
+    let env' = List.fold_left (fun env fd ->
+        let x = int_of_n (fd_name fd) in IM.add x (r.bind x) env) env run in
+    let run' = List.map (fun fd -> IFunc (rn_fdef r env' ~named:true fd)) run in
+    run' @ rn_items r env' rest
   | IExpr e :: t -> let e' = rn_expr r env e in IExpr e' :: rn_items r env t
 (* for named functions the caller has already put name -> new name into env *)
 and rn_fdef r env ~named (FDef (name, params, ret, body, catches, call)) =
